@@ -138,6 +138,9 @@ def main():
                 q["target"] = target
                 reqs.append(q)
     res = vlib.run_children(reqs, subcmd="sync-child", timeout=1200)
+    for r_ in res:
+        if isinstance(r_, dict) and r_.get("log") is None:
+            r_["log"] = []      # a run in which no call reached the wrappers logs nothing (JSON null)
     nreal = 0
     samples = []
     logs = []
@@ -169,7 +172,7 @@ def main():
                             "scenario %d (W=%d, %s): run %d returned error=%s, failing assets say %s" %
                             (q["id"], q["workers"], q["target"], run + 1, r["ret"][run], exp["err"]), {"scenario": q})
         if len(samples) < 3 and len(q["assets"]) >= 2 and (q["failGet"] or q["failApp"]):
-            samples.append({"scenario": q, "after_run1": r["after"][0], "returned_error": r["ret"], "calls_logged": len(r["log"])})
+            samples.append({"scenario": q, "after_run1": r["after"][0], "returned_error": r["ret"], "calls_logged": len(r["log"] or [])})
         logs.append((q, r))
     # ---- race detector
     race_found = None
